@@ -913,7 +913,20 @@ impl Ctx {
         let gid = m.new_gid();
         let i = m.op_begin(self.t, "pin", [gid as i64, 0, 0, 0]);
         let g = circ::cs();
-        mon().op_end(i, [0; 4]);
+        let m = mon();
+        m.cs_enter(self.t);
+        m.op_end(i, [0; 4]);
+        TG { g, gid }
+    }
+
+    /// Wraps a guard the driver obtained directly from the library (one that was parked in a
+    /// thread-local, say); the thread's other guards, if any, are not known to the monitor.
+    pub fn adopt_guard(&self, g: Guard) -> TG {
+        let m = mon();
+        let gid = m.new_gid();
+        m.cs_enter(self.t);
+        // the section did not begin here: there is no epoch to hold it to
+        m.ebr.cs_pin[self.t] = None;
         TG { g, gid }
     }
 
@@ -921,6 +934,7 @@ impl Ctx {
         let m = mon();
         let i = m.op_begin(self.t, "unpin", [g.gid as i64, 0, 0, 0]);
         m.guard_end(self.t, g.gid);
+        m.cs_leave(self.t);
         drop(g.g);
         mon().op_end(i, [0; 4]);
     }
@@ -929,8 +943,10 @@ impl Ctx {
         let m = mon();
         let i = m.op_begin(self.t, "reactivate", [g.gid as i64, 0, 0, 0]);
         m.guard_end(self.t, g.gid);
+        m.cs_restart_begin(self.t);
         g.g.reactivate();
         let m = mon();
+        m.cs_restart_end(self.t);
         g.gid = m.new_gid();
         m.op_end(i, [g.gid as i64, 0, 0, 0]);
     }
